@@ -494,7 +494,9 @@ Record dialect := mkDia {
   dia_rel : val -> Z -> option Z;            (* relative start/end -> index in [0,len] *)
   dia_cnt : val -> Z -> option Z;            (* deleteCount -> [0,bound] *)
   dia_indexof : val -> Z -> option (option Z);
-  dia_lastindexof : val -> Z -> option (option Z)
+  dia_lastindexof : val -> Z -> option (option Z);
+  dia_lio_conv_first : bool;  (* lastIndexOf converts fromIndex before the "len is 0" exit *)
+  dia_join_sep_first : bool   (* join converts the separator before it reads length *)
 }.
 
 Definition es5 : dialect :=
@@ -502,7 +504,8 @@ Definition es5 : dialect :=
         (fun v len => option_map (fun r => clamp_rel r len) (to_integer v))
         (fun v b => option_map (fun r => clamp_cnt r b) (to_integer v))
         (fun v len => option_map (fun r => clamp_indexof r len) (to_integer v))
-        (fun v len => option_map (fun r => clamp_lastindexof r len) (to_integer v)).
+        (fun v len => option_map (fun r => clamp_lastindexof r len) (to_integer v))
+        false false.
 
 Section Methods.
 Variable D : dialect.
@@ -628,14 +631,20 @@ Inductive marg :=
 | AV (v : val)                       (* a primitive *)
 | AA (l : list (option val))         (* a fresh array literal with holes; elements VGet are counting getters *)
 | AR                                 (* the receiver itself, passed as an argument *)
+| AO (id p : Z) (throws : bool)       (* an object whose valueOf/toString logs [5; id] and returns the number p, or throws *)
 | ACb                                (* the scripted callback function *)
 | AT.                                (* the marker object T (used as thisArg) *)
 
 Definition nth_arg (args : list marg) (n : nat) : option marg := nth_error args n.
+(* the value of an argument at the step where the algorithm CONVERTS it (ToInteger / ToString): a primitive
+   converts silently; an AO object runs its valueOf/toString exactly then (log, or throw, class 7) *)
 Definition arg_val (a : option marg) : M val :=
   match a with
   | None => ret VUndef
   | Some (AV v) => ret v
+  | Some (AO id p t) =>
+      fun s => let s1 := mkS (s_o s) (s_log s ++ [[VNum 5; VNum id]]) (s_cb s) (s_lg s) (s_args s) in
+               if t then Ex 7 s1 else Ok (VNum p) s1
   | Some _ => throw (-1)
   end.
 (* this-code seen by a sloppy-mode callback: 0 global object, 1 the marker object *)
@@ -661,10 +670,14 @@ Definition read_range (n : nat) (from : Z) : M (list (option val)) := read_range
 (* 15.4.4.5 *)
 Definition join_elem (v : val) : M (list Z) :=
   match v with VUndef | VNull => ret [] | _ => opt_m (to_string v) end.
-Definition m_join (args : list marg) : M rv :=
-  len <- m_len ;;
+Definition join_sep (args : list marg) : M (list Z) :=
   sepv <- arg_val (nth_arg args 0) ;;
-  sep <- (match sepv with VUndef => ret [44] | _ => opt_m (to_string sepv) end) ;;
+  match sepv with VUndef => ret [44] | _ => opt_m (to_string sepv) end.
+Definition m_join (args : list marg) : M rv :=
+  ls <- (if dia_join_sep_first D
+         then sep <- join_sep args ;; len <- m_len ;; ret (len, sep)
+         else len <- m_len ;; sep <- join_sep args ;; ret (len, sep)) ;;          (* 15.4.4.5 steps 2-3, then 4-5 *)
+  let '(len, sep) := ls in
   if len =? 0 then ret (RVal (VStr [])) else
   n <- cnt (len - 1) ;;
   e0 <- m_get (KI 0) ;;
@@ -801,6 +814,7 @@ Definition m_indexof (args : list marg) : M rv :=
 Definition m_lastindexof (args : list marg) : M rv :=
   len <- m_len ;;
   x <- arg_val (nth_arg args 0) ;;
+  if (len =? 0) && negb (dia_lio_conv_first D) then ret (RVal (VNum (-1))) else     (* step 4, before ToInteger(fromIndex) *)
   st0 <- (match nth_arg args 1 with
           | None => ret (if len =? 0 then None else Some (len - 1))
           | a => v <- arg_val a ;; opt_m (dia_lastindexof D v len)
